@@ -268,6 +268,11 @@ func (c *canonPkg) dumpStruct(b *strings.Builder, v reflect.Value) {
 			}
 		}
 		fv := v.Field(i)
+		// an empty result / type-parameter list and no list are the same tree
+		if fl, ok := fv.Interface().(*ast.FieldList); ok && (f.Name == "Results" || f.Name == "TypeParams") && (fl == nil || len(fl.List) == 0) {
+			b.WriteString(" " + f.Name + "=nil")
+			continue
+		}
 		// the any@universe identifier produced for interface{} makes `any` and `interface{}` equal: nothing else to do
 		b.WriteString(" " + f.Name + "=")
 		c.dump(b, fv)
